@@ -11,6 +11,9 @@ package c10
 import (
 	"context"
 	"fmt"
+	"os"
+	"path/filepath"
+	"runtime"
 	"sort"
 	"strings"
 	"sync"
@@ -74,6 +77,7 @@ type world struct {
 	torn atomic.Int64
 	recs atomic.Int64
 	errs atomic.Int64
+	progress atomic.Int64
 	mu   sync.Mutex
 	tornSamples []string
 }
@@ -136,6 +140,7 @@ func (w *world) reader(kind string, seed int, n int) {
 	ctx := context.Background()
 	r := w.c.Rand(1000 + seed)
 	for i := 0; i < n; i++ {
+		w.progress.Add(1)
 		switch kind {
 		case "get":
 			resp, err := w.r.GW.Get(ctx, &hydrapb.GetRequest{Swamps: []*hydrapb.GetSwamp{{IslandID: w.isl, SwampName: w.sw, Keys: []string{fmt.Sprintf("ver-%d", r.IntN(6)), fmt.Sprintf("ver-%d", r.IntN(6))}}}})
@@ -198,6 +203,7 @@ func (w *world) writer(kind string, seed int, n int) {
 	ctx := context.Background()
 	r := w.c.Rand(2000 + seed)
 	for i := 0; i < n; i++ {
+		w.progress.Add(1)
 		switch kind {
 		case "set":
 			w.setVersioned(fmt.Sprintf("ver-%d", r.IntN(6)))
@@ -282,9 +288,41 @@ func runChild(c *rig.Check, sp spec) {
 		go func(i int, k string) { defer wg.Done(); <-start; w.writer(k, sp.Rep*100+i, sp.Ops) }(i, k)
 	}
 	close(start)
-	wg.Wait()
-	panics := rig.InstallSentinel().Drain("panic")
 	key := fmt.Sprintf("%s/rep%d/inmem=%v/w=%d", sp.Mix, sp.Rep, sp.InMem, sp.Write)
+	// stall monitor: when not a single request of any goroutine has completed for a long while, look
+	// at the goroutine dump; request goroutines parked in the engine's own locks = dead-lock
+	finished := make(chan struct{})
+	go func() { wg.Wait(); close(finished) }()
+	last, lastChange := int64(-1), time.Now()
+stall:
+	for {
+		select {
+		case <-finished:
+			break stall
+		case <-time.After(2 * time.Second):
+			if p := w.progress.Load(); p != last {
+				last, lastChange = p, time.Now()
+				continue
+			}
+			if time.Since(lastChange) < 40*time.Second {
+				continue
+			}
+			buf := make([]byte, 8<<20)
+			buf = buf[:runtime.Stack(buf, true)]
+			dump := filepath.Join(os.Getenv("VERIF_SCRATCH"), "stall-dump.txt")
+			_ = os.WriteFile(dump, buf, 0o644)
+			where := rig.StuckIn(dump)
+			c.Case(key, true)
+			if where != "" {
+				c.Violate("hang:"+sp.Mix+":"+lockCycleClass(where), fmt.Sprintf("the workload %s (rep %d) stopped making progress after %d completed requests: request goroutines are parked in %s", sp.Mix, sp.Rep, last, where), map[string]any{"spec": sp, "goroutines": firstLines(string(buf), 20000)})
+			} else {
+				c.Inconclusive("no request completed for 40 s but no request goroutine is parked in engine code")
+			}
+			c.Finish()
+			os.Exit(0)
+		}
+	}
+	panics := rig.InstallSentinel().Drain("panic")
 	c.Case(key, w.recs.Load() > 0)
 	c.Count("operations", int64(sp.Ops*(len(readers)+len(writers))))
 	c.Count("records_checked_for_version_consistency", w.recs.Load())
@@ -416,7 +454,7 @@ func TestCheck(t *testing.T) {
 			// the SIGQUIT goroutine dump tells a dead-lock from a slow machine: a dead-lock shows request
 			// goroutines parked in the engine's own synchronisation
 			if where := rig.StuckIn(r.LogPath); where != "" {
-				c.Violate("hang:"+where, fmt.Sprintf("the workload %s (rep %d) stopped making progress: request goroutines are parked in %s (goroutine dump in %s)", sp.Mix, sp.Rep, where, r.LogPath), map[string]any{"spec": sp})
+				c.Violate("hang:"+sp.Mix+":"+lockCycleClass(where), fmt.Sprintf("the workload %s (rep %d) stopped making progress: request goroutines are parked in %s (goroutine dump in %s)", sp.Mix, sp.Rep, where, r.LogPath), map[string]any{"spec": sp})
 			} else {
 				c.Inconclusive(fmt.Sprintf("%s rep %d: child watchdog fired (log %s)", sp.Mix, sp.Rep, r.LogPath))
 			}
@@ -442,6 +480,23 @@ func TestCheck(t *testing.T) {
 		c.Violate("race:"+s, fmt.Sprintf("data race reported %d times (mixes %v):\n%s", raceCount[s], ms, firstLines(raceText[s], 3000)), nil)
 	}
 	c.Extra("race_signatures", dist)
+}
+
+// lockCycleClass reduces the places request goroutines are parked in to the kind of cycle: the
+// engine's beacons are walked under their lock while record guards are acquired, and writers hold a
+// record guard while they update the beacons.
+func lockCycleClass(where string) string {
+	b := strings.Contains(where, "beacon.(*beacon)")
+	g := strings.Contains(where, "guard.(*guard)") || strings.Contains(where, "CreateTreasure")
+	switch {
+	case b && g:
+		return "beacon-lock-vs-record-guard"
+	case b:
+		return "beacon-lock"
+	case g:
+		return "record-guard"
+	}
+	return "other"
 }
 
 func fatalSig(s string) string {
